@@ -657,6 +657,23 @@ func variantSpecs(l0, l1, l2 int) []*spec {
 	return out
 }
 
+// ids that are different job ids (each is its own lower-case form) although Unicode simple case
+// folding identifies them: s / long s, sigma / final sigma, micro sign / mu
+func foldSpecs() []*spec {
+	var out []*spec
+	for _, tr := range [][3]string{{"s", "\u017f", "x"}, {"\u03c3", "\u03c2", "y"}, {"\u00b5", "\u03bc", "z"}} {
+		a, b, c := tr[0], tr[1], tr[2]
+		refs := []string{a, b, c, "ghost"}
+		for _, n0 := range seqs(refs, 2) {
+			for _, n1 := range seqs([]string{a, b}, 1) {
+				out = append(out, &spec{group: "unicode-fold", jobs: []gjob{{a, n0}, {c, n1}}})        // b does not exist: dangling
+				out = append(out, &spec{group: "unicode-fold", jobs: []gjob{{a, n0}, {b, n1}, {c, nil}}}) // b exists
+			}
+		}
+	}
+	return out
+}
+
 func bigID(r *hx.Rng, i int) string {
 	if r.Chance(1, 4) {
 		return fmt.Sprintf("J%d", i)
@@ -823,7 +840,7 @@ func main() {
 	hx.Must(os.MkdirAll(*out, 0o755))
 	thorough := *tier == "thorough"
 	sum := hx.NewSummary("C18")
-	sum.Rule = "needs graphs: every edge set (self loops included) over 1-4 jobs in ascending and descending order of the needs entries, references in both spellings; 3 jobs with every needs list up to a length bound over {a, A, b, c, x (dangling), empty}; 5-job graphs (random edge sets of random density; thorough: half of them a bijective stride through all 2^25 edge sets); 4- and 5-job graphs with the needs entries in random order; 3-5 jobs written as ONE flow-style line (positions differ in the column only; more repetitions); random graphs of 6-40 jobs (DAG, one embedded simple cycle, dense) with dangling/duplicate/case-variant references. non-trivial = the rule reports a missing reference or a cycle; distinct = distinct workflow text"
+	sum.Rule = "needs graphs: every edge set (self loops included) over 1-4 jobs in ascending and descending order of the needs entries, references in both spellings; 3 jobs with every needs list up to a length bound over {a, A, b, c, x (dangling), empty}; 5-job graphs (random edge sets of random density; thorough: half of them a bijective stride through all 2^25 edge sets); 4- and 5-job graphs with the needs entries in random order; job ids that only Unicode case folding identifies (s / long s, sigma / final sigma, micro / mu); 3-5 jobs written as ONE flow-style line (positions differ in the column only; more repetitions); random graphs of 6-40 jobs (DAG, one embedded simple cycle, dense) with dangling/duplicate/case-variant references. non-trivial = the rule reports a missing reference or a cycle; distinct = distinct workflow text"
 	hangReport = func(src string) {
 		sum.OracleFails = append(sum.OracleFails, failure{What: "the rule does not terminate on this input within 20 s", Key: "hang:" + src, Workflow: src})
 		sum.Write(filepath.Join(*out, "summary.json"))
@@ -951,6 +968,9 @@ func main() {
 		vs = variantSpecs(2, 2, 1)
 	}
 	process(vs, reps, 199)
+
+	// (c') ids related by Unicode case folding only
+	process(foldSpecs(), reps, 7)
 
 	// (d) 5 jobs
 	cnt5 := *n5
